@@ -435,6 +435,7 @@ def oracle_input_orifice(ctx, rng, n):
     import dassh
     from dassh.orificing import Orificing
     from harness import dasshutil as du
+    reqs, reals = [], []
     for ci in range(n):
         npos = rng.choice([7, 7, 19])
         kinds = []
@@ -470,6 +471,11 @@ def oracle_input_orifice(ctx, rng, n):
             ctx.violation("c20-input-orifice:%s" % type(ex).__name__, "Orificing._setup_input_orifice fails: %r" % ex, kinds=kinds)
             continue
         byp = inp.data['Assignment']['ByPosition']
+        # correspondence with Model.Orifice.writeFlows (c20_flows_written, c20_flows_others_untouched): grouped and empty positions
+        reqs.append("orif %s | %s" % (" ".join("0" if kd == 'empty' else "1" for kd in kinds),
+                                      " ".join("%d %d" % (gid, bits(float(m_))) for gid, m_ in zip(gids, m_asm))))
+        reals.append(["n" if not byp[k] else (str(bits(float(byp[k][2].get('flowrate', float('nan'))))) if kinds[k] == 'grouped' else None)
+                      for k in range(npos)])
         why = None
         used = {}
         for i, gid in enumerate(gids):
@@ -494,6 +500,19 @@ def oracle_input_orifice(ctx, rng, n):
         if why:
             ctx.violation("c20-input-orifice-flows", "the input of the orificed sweep does not carry the distributed flows: %s (positions: %s)"
                           % (why, kinds), kinds=kinds, labels=labels, flows=list(map(float, m_asm)))
+
+    if reqs and modelio.build_driver(ctx):
+        bad = 0
+        for rep, real, rq in zip(modelio.ask(reqs), reals, reqs):
+            got = rep.split()[1:]
+            ok_ = rep.startswith("ok") and len(got) == len(real) and all(r_ is None or g_ == r_ for g_, r_ in zip(got, real))
+            if not ok_:
+                bad += 1
+                if bad == 1:
+                    ctx.problem("correspondence", "Model.Orifice.writeFlows vs Orificing._setup_input_orifice", "request %s: model %s, real %s"
+                                % (rq[:200], rep[:200], real))
+        ctx.obligation("correspondence: Model.Orifice.writeFlows = flows written by the real _setup_input_orifice at the grouped and "
+                       "empty positions of %d cores" % len(reqs), bad == 0, kind="correspondence", detail="disagreements %d" % bad)
 
 
 def run(ctx):
